@@ -30,19 +30,41 @@ Definition any_sub (ms : list string) (s : string) : bool := existsb (fun m => s
 
 Definition slash : ascii := "/"%char.
 
-(* fnmatch.fnmatch restricted to literals, `*` and `?` (no bracket classes: domain predicate pat_ok) *)
-Fixpoint glob (p s : string) : bool :=
-  match p with
-  | EmptyString => match s with EmptyString => true | _ => false end
-  | String c p' =>
-      if Ascii.eqb c "*"%char then
-        (fix star (t : string) : bool :=
-           glob p' t || match t with EmptyString => false | String _ t' => star t' end) s
-      else if Ascii.eqb c "?"%char then
-        match s with EmptyString => false | String _ s' => glob p' s' end
-      else
-        match s with EmptyString => false | String d s' => Ascii.eqb c d && glob p' s' end
+(* fnmatch.fnmatch restricted to literals, `*` and `?` (no bracket classes: domain predicate pat_ok).
+   Simulation of the pattern's position automaton: a state is a suffix of the pattern still to be matched; time O(|p|^2 * |s|)
+   however many stars the pattern has (the default lists of the source contain patterns such as **/*.stories.tsx). *)
+Fixpoint glob_close (q : string) : list (nat * string) :=      (* a leading star may also match nothing; states carry their length *)
+  (String.length q, q) :: match q with
+                          | String c q' => if Ascii.eqb c "*"%char then glob_close q' else []
+                          | EmptyString => []
+                          end.
+
+Definition glob_step (c : ascii) (st : nat * string) : list (nat * string) :=
+  match snd st with
+  | EmptyString => []
+  | String d q' =>
+      if Ascii.eqb d "*"%char then glob_close (snd st)
+      else if Ascii.eqb d "?"%char then glob_close q'
+      else if Ascii.eqb c d then glob_close q' else []
   end.
+
+(* all states are suffixes of one pattern: the remaining length identifies a state *)
+Fixpoint dedupe (l : list (nat * string)) : list (nat * string) :=
+  match l with
+  | [] => []
+  | x :: xs => if existsb (fun y => Nat.eqb (fst x) (fst y)) xs then dedupe xs else x :: dedupe xs
+  end.
+
+Fixpoint glob_run (states : list (nat * string)) (s : string) : bool :=
+  match s with
+  | EmptyString => existsb (fun st => Nat.eqb (fst st) 0) states
+  | String c s' => match states with
+                   | [] => false
+                   | _ => glob_run (dedupe (flat_map (glob_step c) states)) s'
+                   end
+  end.
+
+Definition glob (p s : string) : bool := glob_run (glob_close p) s.
 
 Fixpoint has_char (c : ascii) (s : string) : bool :=
   match s with EmptyString => false | String d s' => Ascii.eqb c d || has_char c s' end.
@@ -226,7 +248,12 @@ Definition linter_ignored (k : ikind) (pats : list string) (sub_s glob_s : strin
   | INone => false
   | ISubstr => existsb (fun p => substrb p sub_s) pats
   | IMatchOrSubstr => existsb (fun p => path_match p parts || substrb p sub_s) pats
-  | IFnmatchOrSubstr => existsb (fun p => glob p glob_s || substrb p sub_s) pats
+  | IFnmatchOrSubstr => existsb (fun p => glob p glob_s || glob p sub_s || substrb p sub_s) pats
+  | IFileHeader =>
+      existsb (fun p => path_match p parts
+                        || (prefixb "**/" p && suffixb "/**" p && smem (srev (drop3 (srev (drop3 p)))) parts)
+                        || (prefixb "**/" p && (String.eqb (name_of parts) (drop3 p) || suffixb (drop3 p) sub_s))
+                        || substrb p sub_s) pats
   | IFpDirPrefix => existsb (fun p => fp_dir_match p glob_s) pats
   end.
 
@@ -285,7 +312,11 @@ Definition fp_path (q : quirks) (e : env) (g : gpath) (rel : list string) : stri
   if q_fp_relative_unchanged q && negb fp_relative_paths_rerooted then fst (parser_view (e_root e) g) else unrooted rel.
 
 Definition ignore_pats (sg : cmdsig) (configured : option (list string)) : list string :=
-  if cs_ignore_from_config sg then match configured with Some l => l | None => cs_default_ignore sg end
+  if cs_ignore_from_config sg then
+    match configured with
+    | Some l => if smem (cs_name sg) merged_default_commands then cs_default_ignore sg ++ l else l
+    | None => cs_default_ignore sg
+    end
   else cs_default_ignore sg.
 
 Definition file_result (q : quirks) (e : env) (sg : cmdsig) (configured : option (list string)) (f : file) : list nat :=
@@ -331,41 +362,74 @@ Definition spec_file (root_pats : list string) (sg : cmdsig) (configured : optio
 Definition spec_result (root_pats : list string) (sg : cmdsig) (configured : option (list string)) (files : list sfile) : list (list nat) :=
   map (spec_file root_pats sg configured) files.
 
-(* ---------- a cross-file rule: duplicate code (dry) ----------
+(* ---------- cross-file rules: duplicate code (dry), repeated string validation (stringly-typed) ----------
    A file takes part when it passes the two orchestrator filters; a file of template group (= language here: the harness renders one
    text per language) is reported when at least two participating files share its text; the linter's own ignore list then filters
    the VIOLATIONS by substring of str(path) (ViolationGenerator._is_ignored).  The same holds for the --parallel evidence pass. *)
 Definition lang_eqb (a b : lang) : bool :=
   match a, b with LPy, LPy | LTs, LTs | LRs, LRs | LOther, LOther => true | _, _ => false end.
 
-Definition participates (q : quirks) (e : env) (f : file) : bool :=
+Definition orch_pass (q : quirks) (e : env) (f : file) : bool :=
   let g := f_given f in
   let rel := true_rel e g in
   negb (hard_excluded (if q_excl_all_parts q && scope_given hard_exclusion_scope then all_parts g else rel) (name_of (g_parts g)))
   && negb (orch_ignored q e g rel).
 
-Definition dry_ignored (q : quirks) (e : env) (pats : list string) (f : file) : bool :=
+(* the linter's own ignore list applied to a file (path as given when the quirk is on) *)
+Definition xf_ignored (q : quirks) (e : env) (k : ikind) (pats : list string) (f : file) : bool :=
   let g := f_given f in
   let rel := true_rel e g in
-  if q_linter_ignore_full_path q then linter_ignored ISubstr pats (pstr g) (pstr g) (g_parts g)
-  else linter_ignored ISubstr pats (rooted rel) (unrooted rel) rel.
+  if q_linter_ignore_full_path q then linter_ignored k pats (pstr g) (pstr g) (g_parts g)
+  else linter_ignored k pats (rooted rel) (unrooted rel) rel.
 
-Definition partners (q : quirks) (e : env) (files : list file) (l : lang) : nat :=
-  List.length (filter (fun f' => participates q e f' && lang_eqb (f_lang f') l) files).
+(* gate = true (stringly-typed): an ignored file is not even analysed, so it is nobody's partner;
+   gate = false (dry): the list only filters the violations, an ignored file still counts as a partner *)
+Definition participates (gate : bool) (q : quirks) (e : env) (k : ikind) (pats : list string) (f : file) : bool :=
+  orch_pass q e f && negb (gate && xf_ignored q e k pats f).
 
-Definition dry_result (q : quirks) (e : env) (sg : cmdsig) (configured : option (list string)) (files : list file) : list (list nat) :=
-  map (fun f => if participates q e f && (2 <=? partners q e files (f_lang f)) && negb (dry_ignored q e (ignore_pats sg configured) f)
+Definition partners (gate : bool) (q : quirks) (e : env) (k : ikind) (pats : list string) (files : list file) (l : lang) : nat :=
+  List.length (filter (fun f' => participates gate q e k pats f' && lang_eqb (f_lang f') l) files).
+
+Definition xfile_result (gate : bool) (q : quirks) (e : env) (sg : cmdsig) (configured : option (list string)) (files : list file)
+  : list (list nat) :=
+  let k := cs_ikind sg in
+  let pats := ignore_pats sg configured in
+  map (fun f => if participates gate q e k pats f && (2 <=? partners gate q e k pats files (f_lang f))
+                   && negb (xf_ignored q e k pats f)
+                   && negb (cs_cwd_parser sg && rule_ignored q e (f_given f) (true_rel e (f_given f)))
                 then f_raw f else []) files.
 
-Definition s_participates (root_pats : list string) (f : sfile) : bool :=
-  negb (hard_excluded (s_rel f) (name_of (s_rel f))) && negb (repo_ignored root_pats (unrooted (s_rel f)) (s_rel f)).
+Definition s_ignored (k : ikind) (pats : list string) (f : sfile) : bool :=
+  linter_ignored k pats (rooted (s_rel f)) (unrooted (s_rel f)) (s_rel f).
 
-Definition s_partners (root_pats : list string) (files : list sfile) (l : lang) : nat :=
-  List.length (filter (fun f' => s_participates root_pats f' && lang_eqb (s_lang f') l) files).
+Definition s_participates (gate : bool) (root_pats : list string) (k : ikind) (pats : list string) (f : sfile) : bool :=
+  negb (hard_excluded (s_rel f) (name_of (s_rel f))) && negb (repo_ignored root_pats (unrooted (s_rel f)) (s_rel f))
+  && negb (gate && s_ignored k pats f).
 
-Definition dry_spec (root_pats : list string) (sg : cmdsig) (configured : option (list string)) (files : list sfile) : list (list nat) :=
-  map (fun f => if s_participates root_pats f && (2 <=? s_partners root_pats files (s_lang f))
-                   && negb (linter_ignored ISubstr (ignore_pats sg configured) (rooted (s_rel f)) (unrooted (s_rel f)) (s_rel f))
+Definition s_partners (gate : bool) (root_pats : list string) (k : ikind) (pats : list string) (files : list sfile) (l : lang) : nat :=
+  List.length (filter (fun f' => s_participates gate root_pats k pats f' && lang_eqb (s_lang f') l) files).
+
+Definition xfile_spec (gate : bool) (root_pats : list string) (sg : cmdsig) (configured : option (list string)) (files : list sfile)
+  : list (list nat) :=
+  let k := cs_ikind sg in
+  let pats := ignore_pats sg configured in
+  map (fun f => if s_participates gate root_pats k pats f && (2 <=? s_partners gate root_pats k pats files (s_lang f))
+                   && negb (s_ignored k pats f)
                 then s_raw f else []) files.
+
+(* the same function with the per-file decisions computed once (what the judge evaluates; equal by xfile_result_fast_eq) *)
+Definition xfile_result_fast (gate : bool) (q : quirks) (e : env) (sg : cmdsig) (configured : option (list string)) (files : list file)
+  : list (list nat) :=
+  let k := cs_ikind sg in
+  let pats := ignore_pats sg configured in
+  let pre := map (fun f => (f, (orch_pass q e f, xf_ignored q e k pats f))) files in
+  let part := fun t : file * (bool * bool) => fst (snd t) && negb (gate && snd (snd t)) in
+  let cnt := fun l => List.length (filter (fun t => part t && lang_eqb (f_lang (fst t)) l) pre) in
+  map (fun t => if part t && (2 <=? cnt (f_lang (fst t))) && negb (snd (snd t))
+                   && negb (cs_cwd_parser sg && rule_ignored q e (f_given (fst t)) (true_rel e (f_given (fst t))))
+                then f_raw (fst t) else []) pre.
+
+Definition dry_result := xfile_result false.
+Definition dry_spec := xfile_spec false.
 
 Definition find_sig (name : string) : option cmdsig := find (fun s => String.eqb (cs_name s) name) command_sigs.
